@@ -142,6 +142,19 @@ def gen_source(rnd, size_class, allow_empty):
     return spec
 
 
+def coerce_values(spec):
+    """Makes the score lists of a source spec representable in its dtype (after a generator replaced them)."""
+    dt = spec.get("dtype", "float64")
+    for key in ("pos", "neg"):
+        if dt.startswith("uint"):
+            spec[key] = [int(abs(v)) for v in spec[key]]
+        elif dt.startswith("int"):
+            spec[key] = [int(v) for v in spec[key]]
+        elif dt == "float32":
+            spec[key] = [float(np.float32(v)) for v in spec[key]]
+    return spec
+
+
 def gen_cfg(rnd, method):
     cfg = {"sampling_method": method, "stratified_sampling": rnd.choice([None, None, "by_label"]), "smoothing": False}
     if method in ("replacement", "dynamic") and rnd.random() < 0.2:
@@ -151,7 +164,7 @@ def gen_cfg(rnd, method):
     elif rnd.random() < 0.1:
         cfg["ratio"] = 0.5  # must be ignored by the other methods
     if method == "callable":
-        cfg["sampling_method"] = {"callable": rnd.choice(["identity", "fixed"])}
+        cfg["sampling_method"] = {"callable": rnd.choice(["identity", "fixed", "fixed", "raising"])}
     return cfg
 
 
@@ -323,8 +336,18 @@ def check_sample(src, src_fp, cfg, eff, sample, returned, v, tags):
         bad("source_unchanged", "source object changed by bootstrap_sample")
 
 
+class SamplerFault(Exception):
+    pass
+
+
 def make_sampler(kind, fixed_spec):
     box = {"returned": None, "calls": 0}
+    if kind == "raising":
+        def sampler(source, **kw):
+            box["calls"] += 1
+            box["raised"] = True
+            raise SamplerFault("planned failure of the custom sampler")
+        return sampler, box
     if kind == "identity":
         def sampler(source, **kw):
             box["calls"] += 1
@@ -500,6 +523,17 @@ def execute(scn, ctx):
                     probe("single_pass_poisson")
                 if entry[1] == "binomial" and not isinstance(entry[5], int):
                     probe("single_pass_binomial")
+            if box is not None and box.get("raised"):
+                faults["sampler_raise"] = faults.get("sampler_raise", 0) + 1
+                fired_kinds.add("sampler_raise")
+                if err is None:
+                    viol.append({"invariant": "C11.callable_passthrough", "tags": tags,
+                                 "detail": f"the custom sampler raised but bootstrap_sample returned {type(s).__name__} (exception swallowed) (op {step}, rep {rep})"})
+                if M.fingerprint(src) != src_fp:
+                    viol.append({"invariant": "C11.source_unchanged", "detail": "source changed by a failing custom sampler", "tags": tags})
+                outcome = "sampler-raised"
+                h.update(b"sampler-raised")
+                break
             if err is not None:
                 outcome = "raise:" + type(err).__name__
                 viol.append({"invariant": "C11.sample_raises", "tags": tags,
